@@ -674,6 +674,23 @@ func (e *SpecEnv) evalCall(n ECall) Val {
 		return Val{T: "0", S: sInt}
 	case "ns":
 		return arg(0)
+	case "final":
+		// final(x): the value of local variable x at this point (postconditions otherwise see entry values of parameters)
+		if id, ok := n.Args[0].(EIdent); ok && g.fn != nil {
+			c := e.child()
+			c.useLocals = true
+			if a := g.lookupLocal(id.Name, c); a != nil {
+				ad := g.addrs[a]
+				if ad == nil && g.isLocal[a] {
+					ad = &Addr{rk: rLocal, local: a, typ: a.Type().(*types.Pointer).Elem(), text: a.Comment}
+				}
+				if ad != nil {
+					return g.loadAddr(ad, e.st)
+				}
+			}
+		}
+		g.errorf("spec: final() needs a local variable name")
+		return Val{T: "0", S: sInt}
 	case "abs":
 		x := arg(0)
 		return Val{T: fmt.Sprintf("(ite (>= %[1]s 0) %[1]s (- %[1]s))", x.T), S: sInt}
